@@ -23,7 +23,9 @@ MANIFEST = dict(
               "steps, crashes at every hook) model-checked with TLC (safety, action property, liveness under fairness); "
               "conformance: TLC behaviours incl. crash points replayed on real worker processes under a process coordinator, "
               "recorded multi-process executions validated by TLC (trace spec), exhaustive real-code schedule enumeration "
-              "compared with TLC's state graph, free-running multi-thread/multi-process executions checked on their end state",
+              "compared with TLC's state graph, free-running multi-thread/multi-process executions checked on their end state; "
+              "verdict = the spec's property predicates evaluated by TLC on the observed states (ObsJobFile.tla), a mere "
+              "conformance failure is reported as SPEC-DRIFT",
     text="TLC explores every interleaving of 2-3 processes (1-2 worker threads each) over job files of up to 3-4 jobs, all "
          "cache sizes/maxjobs limits/restart patterns of the configured sets, with up to 2 process crashes at any hook "
          "point: no job assigned or executed twice, no job lost, results never overwritten, job file or backup always "
